@@ -100,7 +100,7 @@ Proof. unfold canon. now intros ->. Qed.
 (* node-level mergeability of the singleton graph = k-mer-level mergeability of the table *)
 Theorem rnext_knext i d : rnext D join K stranded T i d = knext D join stranded T i d.
 Proof.
-  unfold rnext, knext. destruct (nth_error T i) as [ent|] eqn:Hi; [|reflexivity].
+  unfold rnext, knext. unfold gnode, entry in *. destruct (@nth_error (dna * N * D)%type T i) as [ent|] eqn:Hi; [|reflexivity].
   assert (Hin : In ent T) by (eapply nth_error_In; eauto).
   pose proof (ok_len _ _ _ _ Hok _ Hin) as Hlen. pose proof (ok_wf _ _ _ _ Hok _ Hin) as Hwf.
   change (n_seq D ent) with (e_key D ent). change (n_exts D ent) with (e_exts D ent). change (n_data D ent) with (e_data D ent).
@@ -128,15 +128,16 @@ Proof.
   assert (Hfin : forall (P J N : bool) (r : nat * dir),
             (if P || negb J then None else if N then Some r else None) = (if J && N && negb P then Some r else None))
     by (intros [] [] [] r; reflexivity).
-  destruct stranded eqn:St.
+  assert (Hst : stranded = true \/ stranded = false) by (destruct stranded; auto).
+  destruct Hst as [St|St]; rewrite St.
   - cbn [fst snd cond_flip negb andb orb]. destruct (get_id D T nk) as [j|]; [|reflexivity].
-    destruct (nth_error T j) as [yent|]; [|reflexivity].
+    destruct (@nth_error (dna * N * D)%type T j) as [yent|]; [|reflexivity].
     change (n_data D yent) with (e_data D yent). change (n_exts D yent) with (e_exts D yent).
     destruct (join (e_data D ent) (e_data D yent)), (e_num_ext_dir (e_exts D yent) (dirb (dflip d)) =? 1)%N; reflexivity.
   - cbn [negb andb]. unfold canon_flip. destruct (dna_ltb nk (rc nk)) eqn:Hlt; cbn [fst snd cond_flip].
     + (* nk canonical, not a palindrome *)
       destruct (get_id D T nk) as [j|] eqn:Hg.
-      * destruct (nth_error T j) as [yent|]; [|reflexivity].
+      * destruct (@nth_error (dna * N * D)%type T j) as [yent|]; [|reflexivity].
         change (n_data D yent) with (e_data D yent). change (n_exts D yent) with (e_exts D yent). apply Hfin.
       * rewrite noncanon_absent; auto using rc_wf.
         rewrite canon_rc by exact Wnk. rewrite (dna_ltb_canon _ Hlt). intro E.
@@ -149,11 +150,11 @@ Proof.
           pose proof (ok_canon _ _ _ _ Hok St e' (nth_error_In _ _ Hj)) as Hc. rewrite Hk in Hc.
           rewrite (dna_nltb_canon _ Hlt) in Hc. now symmetry. }
         rewrite <- Epal, Hg. assert (Hp : is_palindrome nk = true) by now apply palindrome_iff. rewrite Hp.
-        destruct (nth_error T j) as [yent|]; [|reflexivity]. cbn [orb negb]. rewrite !andb_false_r. reflexivity.
+        destruct (@nth_error (dna * N * D)%type T j) as [yent|]; [|reflexivity]. cbn [orb negb]. rewrite !andb_false_r. reflexivity.
       * destruct (get_id D T (rc nk)) as [j|]; [|reflexivity].
-        destruct (nth_error T j) as [yent|]; [|reflexivity].
+        destruct (@nth_error (dna * N * D)%type T j) as [yent|]; [|reflexivity].
         change (n_data D yent) with (e_data D yent). change (n_exts D yent) with (e_exts D yent).
-        rewrite (is_palindrome_rc nk Wnk). apply Hfin.
+        rewrite (is_palindrome_rc nk Wnk), !dflip_dflip. apply Hfin.
 Qed.
 
 Lemma wnext_anext v s : wnext D join K stranded T U v s = anext D join stranded T v s.
@@ -172,7 +173,7 @@ Proof.
   unfold restrict. destruct (fix_exts_spec D K stranded T (Some U)) as (g1 & Hg1 & _). rewrite Hg1. f_equal.
   eapply (fix_exts_id D K stranded); [| |exact Hg1].
   - intros i n Hn. apply (ok_exts _ _ _ _ Hok). eapply nth_error_In; eauto.
-  - apply rvalid_keeps_all; auto. intros t Ht. cbn. apply mem_nat_In. apply in_seq. lia.
+  - apply rvalid_keeps_all; auto. intros t Ht. cbn. apply mem_nat_In. apply in_seq. split; [apply Nat.le_0_l | exact Ht].
 Qed.
 
 Theorem singleton_paths out paths :
@@ -191,7 +192,8 @@ Hypothesis Hsym : CompressSpec.exts_sym D stranded T.
 
 Lemma nk_single i : i < length T -> nk D K stranded T i = [kkey i].
 Proof.
-  intro Hi. unfold nk, CompressRefine.kkey. destruct (nth_error T i) as [ent|] eqn:E; [|apply nth_error_None in E; lia].
+  intro Hi. unfold nk, CompressRefine.kkey. unfold gnode, entry in *.
+  destruct (@nth_error (dna * N * D)%type T i) as [ent|] eqn:E; [|exfalso; apply nth_error_None in E; exact (Nat.lt_irrefl _ (Nat.lt_le_trans _ _ _ Hi E))].
   assert (Hin : In ent T) by (eapply nth_error_In; eauto).
   unfold node_kmers. change (n_seq D ent) with (e_key D ent).
   rewrite (kmers_exact K _ HK (ok_len _ _ _ _ Hok _ Hin)). cbn [map]. f_equal.
@@ -214,14 +216,14 @@ Proof.
   destruct (recompress_nodes D reduce join K stranded join_sym T None a paths Hval Ha) as (g1 & Hg1 & HF).
   change (survivors D T None) with U in Hg1. rewrite restrict_all in Hg1. injection Hg1 as <-.
   assert (W : winv D K stranded T U).
-  { apply (restrict_winv D K stranded T T U Hval); [|exact restrict_all]. intros x Hx. apply in_seq in Hx. lia. }
+  { apply (restrict_winv D K stranded T T U Hval); [|exact restrict_all]. intros x Hx. apply in_seq in Hx. exact (proj2 Hx). }
   destruct (compress_refines D reduce join K stranded HK T Hok Hsym) as [b' [Hb' Hrel]].
   assert (b' = b) by congruence. subst b'.
   set (cs := compress_struct D join stranded T U U) in *.
   assert (L1 : length paths = length cs).
   { apply (f_equal (@length _)) in Hv. now rewrite !map_length in Hv. }
-  assert (L2 : length b = length cs) by (eapply Forall2_length; eauto).
-  apply Forall2_nth_intro; [lia|]. intros i na nb Hna Hnb.
+  assert (L2 : length b = length cs) by (eapply Forall2_length_; eauto).
+  apply Forall2_nth_intro; [unfold node, gnode in *; lia|]. intros i na nb Hna Hnb.
   assert (Hi : i < length paths) by (rewrite <- Hlen; apply nth_error_Some; congruence).
   destruct (nth_error paths i) as [p|] eqn:Ep; [|apply nth_error_None in Ep; lia].
   destruct (nth_error cs i) as [[[lp s] rp]|] eqn:Ec; [|apply nth_error_None in Ec; lia].
@@ -250,6 +252,6 @@ Proof.
   destruct (compress_graph_paths rpay reduce join K stranded T None) as [[a' paths]|] eqn:E; [|discriminate].
   cbn in Ha. injection Ha as ->.
   pose proof (singleton_route_nodes rpay reduce join K stranded HK Js T Hok Hval Hsym a paths b E Hb) as HF.
-  unfold same_partition. apply Permutation_refl'. induction HF as [|na nb a b P HF IH]; [reflexivity|].
+  unfold same_partition. apply Permutation_refl'. clear - HF. induction HF as [|na nb a b P HF IH]; [reflexivity|].
   cbn [map]. f_equal; [|exact IH]. unfold kpart. now apply sort_perm_eq.
 Qed.
